@@ -17,7 +17,7 @@ func c07Source(r *fw.Rand) (string, string) {
 	big := func() string {
 		return fmt.Sprint(fw.PickT(r, []int64{100, 1000, 29999, 30001, 100000, 1 << 31, 1 << 40, (1 << 62), 9223372036854775807}))
 	}
-	switch k := r.Intn(24); {
+	switch k := r.Intn(26); {
 	case k < 3:
 		return gen.Doubling(r), "doubling"
 	case k < 5:
@@ -59,8 +59,38 @@ func c07Source(r *fw.Rand) (string, string) {
 		return gen.Matrix(r), "matrix"
 	case k == 22:
 		return "i=0; while i < " + big() + " { i = i + 1 }; i", "counting-loop"
+	case k == 23, k == 24:
+		// values without compiled code (restored from JSON / built by the host), compiled lazily
+		return r.Pick([]string{"lx", "lf(0)", "ghp", "gself + 1", "i=0; while i < 100000 { i = i + 1; gfresh }; i", "i=0; s=0; while i < 2000 { i = i + 1; s = s + lok(i) }; s", "lx + lf(0)", "i=0; while i < 300 { i=i+1; gok }; lx"}), "lazy-values"
 	default:
 		return gen.ValidProgram(r, 3, false), "valid"
+	}
+}
+
+// c07InstallLazy puts values without compiled code into the VM: decoded from JSON into the
+// variables, and served (the same object, or a fresh object per lookup) by the host's global loader.
+func c07InstallLazy(vm *ds.Context, r *fw.Rand) {
+	dec := func(doc string) *ds.VMValue {
+		v, err := ds.VMValueFromJSON([]byte(doc))
+		if err != nil {
+			return ds.NewNullVal()
+		}
+		return v
+	}
+	vm.Attrs.Store("lx", dec(`{"t":5,"v":{"expr":"lx + 1"}}`))
+	vm.Attrs.Store("lf", dec(`{"t":8,"v":{"expr":"lf(n+1)","name":"lf","params":["n"]}}`))
+	vm.Attrs.Store("lok", dec(`{"t":8,"v":{"expr":"n * 2 + d6","name":"lok","params":["n"]}}`))
+	shared := map[string]*ds.VMValue{
+		"ghp":   dec(`{"t":5,"v":{"expr":"gcon + 1"}}`),
+		"gcon":  dec(`{"t":5,"v":{"expr":"ghp + 1"}}`),
+		"gself": dec(`{"t":5,"v":{"expr":"gself * 2"}}`),
+		"gok":   dec(`{"t":5,"v":{"expr":"3d6 + 1"}}`),
+	}
+	vm.GlobalValueLoadFunc = func(name string) *ds.VMValue {
+		if name == "gfresh" {
+			return ds.NewComputedVal("1 + 2 + 3 + 4 + 5 + 6 + 7 + 8 + 9 + 10 + d6")
+		}
+		return shared[name]
 	}
 }
 
@@ -107,6 +137,9 @@ func c07Budget(w *fw.W, idx int, r *fw.Rand) {
 	}
 	hook.Set(mo)
 	vm := cfg.NewVM()
+	if fam == "lazy-values" {
+		c07InstallLazy(vm, r)
+	}
 	var err error
 	pv, st := fw.Guard(func() { err = vm.Run(src) })
 	hook.Set(nil)
